@@ -77,6 +77,14 @@ def deploy_line(variant, caller, rnd, epoch, lp, per, paytok, price, nrw, conf, 
     return " ".join(str(p) for p in parts)
 
 
+class TraceEnded(Exception):
+    """an operation never answered (cut by proc.OP_TIMEOUT): the trace ends here and is evaluated as it is"""
+
+    def __init__(self, trace):
+        Exception.__init__(self, "trace ended by a non-terminating operation")
+        self.trace = trace
+
+
 class Trace:
     """One scenario: sends ops through a Pair, keeps the answers, notes disagreements."""
 
@@ -97,7 +105,19 @@ class Trace:
         self.ret_div = {}        # endpoint -> index of the first completed/interrupted disagreement on it
 
     def send(self, line, model_line=None):
-        i, m = self.pair.op(line, model_line)
+        try:
+            i, m = self.pair.op(line, model_line)
+        except RuntimeError as ex:
+            if "no answer within" not in str(ex):
+                raise
+            idx = len(self.ops)
+            self.ops.append((line, "X hang", "X hang"))
+            ep = parse_call_line(line)["ep"] if line.startswith("call") else None
+            rec = dict(index=idx, kind="call", ep=ep, fields=["hang"], impl_msg=str(ex)[:200], model_msg="")
+            self.disagreements_by_index[idx] = rec
+            self.disagreements.append(rec)
+            self.diverged = True
+            raise TraceEnded(self)
         idx = len(self.ops)
         self.ops.append((line, i, m))
         if line.startswith("storage"):
